@@ -53,6 +53,8 @@ def write_source(root, pkg, version):
     p = os.path.join(d, 'mod.py')
     with open(p, 'w') as f:
         f.write(MODULE % version)
+    with open(os.path.join(d, 'bad.py'), 'w') as f:
+        f.write('def (:\n')                  # never compiles; imported only by the runs that say so, inside try/except
     t = 1_600_000_000 + 100 * version
     os.utime(p, (t, t))
     os.utime(os.path.join(d, '__init__.py'), (1_600_000_000, 1_600_000_000))
@@ -95,7 +97,11 @@ def run_multi(workdir, idx, seq):
             for p in ('c16pkg', 'c16oth'):
                 write_source(root, p, r['version'])
             cur = r['version']
-        out.append(run_process(root, {'hooks': r['hooks'], 'pkgs': ['c16pkg', 'c16oth']}))
+        spec = {'hooks': r['hooks'], 'pkgs': ['c16pkg', 'c16oth']}
+        if r.get('broken'):
+            # the failing import of c16pkg.bad comes first, then the other package, then c16pkg itself
+            spec = {'hooks': r['hooks'], 'pkgs': ['c16oth', 'c16pkg'], 'broken': 'c16pkg'}
+        out.append(run_process(root, spec))
     shutil.rmtree(root, ignore_errors=True)
     return out
 
@@ -106,7 +112,7 @@ def gen_multi(rng):
         if rng.random() < 0.2:
             version += 1
         hk = lambda: None if rng.random() < 0.4 else {'pep526': True, 'violation': None}  # noqa: E731
-        seq.append({'hooks': {'c16pkg': hk(), 'c16oth': hk()}, 'version': version})
+        seq.append({'hooks': {'c16pkg': hk(), 'c16oth': hk()}, 'version': version, 'broken': rng.random() < 0.4})
     return seq
 
 
@@ -256,6 +262,9 @@ def run(ctx):
              [{'hooks': {'c16pkg': {'pep526': True, 'violation': None}, 'c16oth': {'pep526': True, 'violation': None}}, 'version': 1}],
              [{'hooks': {'c16pkg': {'pep526': True, 'violation': None}, 'c16oth': {'pep526': True, 'violation': None}}, 'version': 1},
               {'hooks': {'c16pkg': {'pep526': True, 'violation': None}, 'c16oth': None}, 'version': 1}]]
+    hk1 = {'pep526': True, 'violation': None}
+    mseqs += [[{'hooks': {'c16pkg': hk1, 'c16oth': None}, 'version': 1, 'broken': True}, {'hooks': {'c16pkg': hk1, 'c16oth': hk1}, 'version': 1}],
+              [{'hooks': {'c16pkg': hk1, 'c16oth': hk1}, 'version': 1}, {'hooks': {'c16pkg': hk1, 'c16oth': None}, 'version': 1, 'broken': True}]]
     mseqs += [gen_multi(ctx.rng) for _ in range({'quick': 14, 'thorough': 400}[ctx.tier])]
     with ThreadPoolExecutor(max_workers=12) as ex:
         mobs = list(ex.map(lambda t: run_multi(ctx.workdir, t[0], t[1]), enumerate(mseqs)))
